@@ -423,4 +423,5 @@ func runE2E(seed int64, tier string) {
 	// the mock keeps raw and txn data in one leveldb: audit the txn mode's byte range only
 	audit("txn", txnAll(shared, []byte{'x'}, []byte{'y'}), txnA, txnB, txnAll(refTxnA, nil, nil), txnAll(refTxnB, nil, nil))
 	_ = cB
+	runRespE2E(seed)
 }
